@@ -18,7 +18,7 @@ from harness import buildlib as B
 from harness import c01
 from harness.common import Run
 
-CONE = ["Base.v", "IR.v", "Show.v", "Build.v", "Sem.v", "Plan.v", "Named.v", "Validate.v", "BuildFacts.v", "SemFacts.v", "FuncFacts.v", "CompilePres.v", "ScopeFacts.v", "DfsFacts.v", "EmitFacts.v", "FunDefFacts.v", "IOFacts.v", "AdaptFacts.v", "ReqFacts.v", "CoverFacts.v", "FunCoverFacts.v"]
+CONE = ["Base.v", "IR.v", "Show.v", "Build.v", "Sem.v", "Plan.v", "Named.v", "Validate.v", "BuildFacts.v", "SemFacts.v", "FuncFacts.v", "CompilePres.v", "ScopeFacts.v", "DfsFacts.v", "EmitFacts.v", "FunDefFacts.v", "IOFacts.v", "AdaptFacts.v", "ReqFacts.v", "CoverFacts.v", "FunCoverFacts.v", "ReachFacts.v", "DiscoverFacts.v", "CoverageFacts.v", "PlanFacts.v", "LcaFacts.v", "PlacementFacts.v", "DefUseFacts.v", "TreeFacts.v", "WfFacts.v", "LegalFacts.v", "FunInd.v", "FunLegalFacts.v"]
 PROPS = "props/C14.v"
 F32 = np.float32
 
@@ -302,6 +302,14 @@ def run(run: Run) -> int:
             key = "C14/wrong-value" if "!=" in probs[0] and "onnxruntime" in probs[0] else "C14/functions-mismatch" if "ModelProto.functions" in probs[0] else \
                 "C14/varying-body-accepted" if "two different bodies" in probs[0] else "C14/" + probs[0].split(" ")[0]
             run.fail("impl", key, probs[0][:250], {"problems": probs[:4], "case": B.describe(c)})
+    # non-vacuity of C14_call_means_body_for_legal_bodies: the decidable legality premise holds of EVERY function body of every model built
+    withf = [c for c in cases if c.model_proto is not None and c.coq is not None and len(c.model_proto.functions) > 0]
+    fprem = B.premise_eval(run, "c14legal", "FunLegalFacts", "fun_legal_build_req", [c.coq for c in withf])
+    for c, ok in zip(withf, fprem):
+        if not ok:
+            run.fail("corr", "C14/legality-premise-not-met", "a function body of a model that builds does not satisfy the decidable legality "
+                     "condition of C14_call_means_body_for_legal_bodies", B.describe(c))
+            break
     for i in mism[:5]:
         run.fail("corr", f"C14/model-vs-impl/{i}", "model and implementation disagree (functions / bodies / imports / exception class)", B.describe(cases[i]))
     cov = {
@@ -309,7 +317,9 @@ def run(run: Run) -> int:
         "rule": "random programs with 1-3 to_function operators (nested, repeated, called inside If/Loop/Scan bodies), some with a "
                 "Python body that varies between calls; distinct built models by rendering; non-trivial = uses a function",
         "traces_validated_against_impl": len([c for c in cases if c.coq is not None]) - len(mism), "disagreements_checked": len(mism),
-        "models_executed_ort_vs_numpy": n_exec, "direct_oracle_failures": n_bad,
+        "models_executed_ort_vs_numpy": n_exec,
+        "legality_premise_met (C14_call_means_body_for_legal_bodies)": f"{sum(fprem)} of {len(withf)} built models with functions "
+                                                                     f"({sum(len(c.model_proto.functions) for c in withf)} function bodies)", "direct_oracle_failures": n_bad,
         "input_distribution": {"outcomes": dict(hist), "operators": g.hist},
         "samples": [B.describe(c) for c in cases[:2]],
     }
